@@ -69,7 +69,11 @@ fn fingerprint<T: std::fmt::Debug>(x: &T) -> String {
             break;
         };
         let inner = &after[..e];
-        if is_universe_name(inner) {
+        // free-text fields are content, not references, even if their text happens to be a name
+        // (RefUnit { unit: .. } is a reference and stays masked)
+        let free_text = ["unit: ", "display: ", "format: ", "long_identifier: "].iter().any(|f| out.ends_with(f))
+            && !out.ends_with("RefUnit { unit: ");
+        if !free_text && is_universe_name(inner) {
             out.push_str("\"<name>\"");
         } else {
             out.push('"');
